@@ -39,4 +39,11 @@ def run(prog: Program, col: Collector, tier: str, refs: Optional[Refs] = None, c
     algebra.r_operand_multiplicity(prog, col, refs, cat, "R08.10")
     algebra.r_absent_vars_kernel(prog, col, refs, cat, "R08.11")
     algebra.r_exact_counts(prog, col, refs, cat, "R08.12")
+    algebra.r_size_product_over_sequence(prog, col, refs, cat, "R08.13")
+    # the normalize rule that pushes a substitution into the operands of a contraction (every transformed form passes through it)
+    col.rule("R08.14", "a substitution pushed into the operands of a contraction reaches every operand that mentions a key", floor=2)
+    from . import c04
+    c04._quantified_guards(prog, col, refs, cat, c04._subs_collections(prog, refs, cat))
+    algebra.r_reduce_rules_keep_absent_vars(prog, col, refs, cat, "R08.15")
+    algebra.r_contraction_rules_cover_reduced_vars(prog, col, refs, cat, "R08.16")
     return col
